@@ -223,6 +223,11 @@ fn is_js_reserved_word(name: &str) -> bool {
     }
 }
 
+#[cfg(glass_easel_verif)]
+pub(crate) fn verif_get_var_name(var_id: usize) -> String {
+    get_var_name(var_id)
+}
+
 impl<'a, W: fmt::Write> JsFunctionScopeWriter<'a, W> {
     fn get_block(&self) -> &JsBlockStat {
         if self.block.is_some() {
